@@ -1,6 +1,7 @@
 package tokenizers
 
 import (
+	"github.com/pip-services3-gox/pip-services3-expressions-gox/io"
 	"github.com/pip-services3-gox/pip-services3-expressions-gox/tokenizers"
 	"github.com/pip-services3-gox/pip-services3-expressions-gox/tokenizers/generic"
 )
@@ -9,6 +10,7 @@ type MustacheTokenizer struct {
 	*tokenizers.AbstractTokenizer
 	special      bool
 	specialState tokenizers.ITokenizerState
+	reader       io.IScanner
 }
 
 func NewMustacheTokenizer() *MustacheTokenizer {
@@ -57,7 +59,9 @@ func (c *MustacheTokenizer) ReadNextToken() *tokenizers.Token {
 	}
 
 	// Check for initial state
-	if c.NextTokenValue == nil && c.LastTokenType == tokenizers.Unknown {
+	// A new reader starts in text mode
+	if c.Scanner != c.reader {
+		c.reader = c.Scanner
 		c.special = true
 	}
 
